@@ -124,8 +124,9 @@ def plant(rng):
         badpart = names[k] + ' one two'
         gparts = list(parts)
         parts[k] = badpart
-        el = '<p %s i18n:attributes="%s">x</p>' % (' '.join('%s="v"' % nm for nm in names[:n]), '; '.join(parts))
-        base = '<p %s i18n:attributes="%s">x</p>' % (' '.join('%s="v"' % nm for nm in names[:n]), '; '.join(gparts))
+        sep = rng.choice(['; ', '; ', ';', ';\n', ';\n     '])
+        el = '<p %s i18n:attributes="%s">x</p>' % (' '.join('%s="v"' % nm for nm in names[:n]), sep.join(parts))
+        base = '<p %s i18n:attributes="%s">x</p>' % (' '.join('%s="v"' % nm for nm in names[:n]), sep.join(gparts))
         exp = None           # judged by source[offset:offset+len(token)] == token and the class
         nontrivial = True
     elif kind == 'define-after-escape':
@@ -175,17 +176,18 @@ def plant(rng):
         exp = ('ExpressionError', bad, len(pre) + el.index('not: ') + 5)
     elif kind == 'define-syntax':
         part = rng.choice(['1a b', 'a', '(a b) c'])
-        el = '<p tal:define="x 1; %s">x</p>' % part
-        base = '<p tal:define="x 1; y 2">x</p>'
-        exp = ('LanguageError', ' ' + part, len(pre) + at(el, ' ' + part, 1 if part == 'a' and False else 0) if False else None)
-        # the token is the whole ;-part including its leading blank
-        off = len(pre) + el.index('; ' + part) + 1
-        exp = ('LanguageError', ' ' + part, off)
+        # the token is the whole ;-part including its leading white space: a blank, or the line break of a one-part-per-line layout
+        ws = rng.choice([' ', ' ', '\n', '\n    ', '\n\t'])
+        el = '<p tal:define="x 1;%s%s">x</p>' % (ws, part)
+        base = '<p tal:define="x 1;%sy 2">x</p>' % ws
+        off = len(pre) + el.index(';' + ws + part) + 1
+        exp = ('LanguageError', ws + part, off)
         nontrivial = True
     elif kind == 'dup-attr':
-        el = '<p tal:attributes="a 1; a 2">x</p>'
-        base = '<p tal:attributes="a 1; b 2">x</p>'
-        exp = ('LanguageError', ' a 2', len(pre) + el.index('; a 2') + 1)
+        ws = rng.choice([' ', ' ', '\n', '\n    '])
+        el = '<p tal:attributes="a 1;%sa 2">x</p>' % ws
+        base = '<p tal:attributes="a 1;%sb 2">x</p>' % ws
+        exp = ('LanguageError', ws + 'a 2', len(pre) + el.index(';' + ws + 'a 2') + 1)
         nontrivial = True
     elif kind == 'content+replace':
         el = '<p tal:content="1" tal:replace="2">x</p>'
